@@ -1,6 +1,823 @@
-//! C17 — not built yet.
-use mcx::{Ctx, Value};
-pub fn run(_ctx: &Ctx, _replay: Option<&Value>) -> i32 {
-    eprintln!("C17: check not built yet");
-    2
+//! C17 — standard-library hash functions agree with their reference definitions.
+//!
+//! Subjects: `std::crypto::hashes::blake3::{hash_1to1, hash_2to1}`, `sha256::{hash_1to1, hash_2to1,
+//! hash_memory}`, `keccak256::{hash, to_bit_interleaved, from_bit_interleaved}` and
+//! `native::{hash_memory, hash_memory_even, state_to_digest}` — i.e. every exported procedure of the
+//! four modules (the export lists are read from the loaded StdLibrary and must coincide with the list
+//! this module covers, otherwise exit 2).
+//! References: crates `blake3`, `sha2`, `sha3::Keccak256` on the byte string the documented word
+//! encoding denotes (blake3: little-endian words, sha256: big-endian words, keccak: little-endian
+//! u64 lanes given as (hi, lo) u32 pairs), and `Rpo256::{hash_elements, apply_permutation}` (the VM's
+//! own hasher) for the native helpers.
+//! Inputs are enumerated from structured finite sets, never sampled (see `hash_inputs`): every
+//! input whose 32-bit words are each 0 or 0xFFFFFFFF (all 2^8 for 8-word inputs; for 16-word inputs
+//! the sub-family `masks_for(function, tier)` — all 2^16 in thorough for blake3 / sha256, 2^14 for
+//! keccak), every single-bit input, every all-ones-but-one-bit input, counting patterns.
+//! The operands sit on top of 8 pairwise distinct sentinels; the whole final stack is compared.
+
+use crate::common::*;
+use mcx::{guard, json, Ctx, Tier, Value};
+use processor::Program;
+use rayon::prelude::*;
+use sha2::Digest as _;
+use std::collections::{BTreeMap, BTreeSet};
+use vm_core::crypto::hash::Rpo256;
+use vm_core::{Felt, StarkField};
+
+const M32: u64 = 0xFFFF_FFFF;
+
+/// pairwise distinct, none of them a valid u32
+const SENT: [u64; 8] = [
+    0xC17E_0100_0101_0101,
+    0xC17E_0200_0202_0202,
+    0xC17E_0300_0303_0303,
+    0xC17E_0400_0404_0404,
+    0xC17E_0500_0505_0505,
+    0xC17E_0600_0606_0606,
+    0xC17E_0700_0707_0707,
+    0xC17E_0800_0808_0808,
+];
+
+/// Performance only. One keccak256::hash run builds a 2^17-row trace (~90 MB). On this box a page
+/// that the process touches for the first time costs ~100 us (measured: first run of a thread 4 s,
+/// later runs 55 ms; with glibc's defaults, which mmap / munmap every column, *every* run costs
+/// 1.2 s). So (1) glibc is told never to give memory back: no mmap for blocks < 32 MB, no trimming,
+/// and a top pad larger than a 64 MB arena heap, which keeps `heap_trim` from deleting the heaps of
+/// the per-thread arenas; (2) the runs of this check use a private pool with few threads in the
+/// quick tier (footprint = threads x 90 MB is what costs wall time, not CPU).
+fn tune_allocator() {
+    unsafe {
+        libc::mallopt(libc::M_MMAP_THRESHOLD, 32 << 20);
+        libc::mallopt(libc::M_TRIM_THRESHOLD, 1 << 30);
+        libc::mallopt(libc::M_TOP_PAD, 1 << 30);
+    }
+}
+
+fn worker_pool(tier: Tier) -> rayon::ThreadPool {
+    let n = std::env::var("C17_THREADS").ok().and_then(|s| s.parse().ok()).unwrap_or(tier.pick(6usize, 16usize));
+    rayon::ThreadPoolBuilder::new().num_threads(n).stack_size(64 << 20).build().expect("thread pool")
+}
+
+fn hex(v: &[u64]) -> String {
+    let parts: Vec<String> = v.iter().map(|x| format!("{x:x}")).collect();
+    format!("[{}]", parts.join(","))
+}
+
+fn strip_zeros(s: &[u64]) -> &[u64] {
+    let n = s.iter().rposition(|&x| x != 0).map(|i| i + 1).unwrap_or(0);
+    &s[..n]
+}
+
+fn u64s(v: &Value) -> Vec<u64> {
+    v.as_array().expect("array of integers").iter().map(|x| x.as_u64().expect("u64")).collect()
+}
+
+// ------------------------------------------------------------------------------------------------
+// the five byte-oriented hash procedures
+// ------------------------------------------------------------------------------------------------
+
+#[derive(Clone, Copy, PartialEq, Eq, Debug)]
+enum Func {
+    Blake3One,
+    Blake3Two,
+    Sha256One,
+    Sha256Two,
+    Keccak,
+}
+
+const FUNCS: [Func; 5] = [Func::Blake3One, Func::Blake3Two, Func::Sha256One, Func::Sha256Two, Func::Keccak];
+
+impl Func {
+    fn module(self) -> &'static str {
+        match self {
+            Func::Blake3One | Func::Blake3Two => "blake3",
+            Func::Sha256One | Func::Sha256Two => "sha256",
+            Func::Keccak => "keccak256",
+        }
+    }
+    fn proc(self) -> &'static str {
+        match self {
+            Func::Blake3One | Func::Sha256One => "hash_1to1",
+            Func::Blake3Two | Func::Sha256Two => "hash_2to1",
+            Func::Keccak => "hash",
+        }
+    }
+    fn path(self) -> String {
+        format!("std::crypto::hashes::{}::{}", self.module(), self.proc())
+    }
+    fn from_path(p: &str) -> Func {
+        *FUNCS.iter().find(|f| f.path() == p).unwrap_or_else(|| panic!("unknown function {p}"))
+    }
+    fn n_words(self) -> usize {
+        match self {
+            Func::Blake3One | Func::Sha256One => 8,
+            _ => 16,
+        }
+    }
+    /// the byte string denoted by the stack words (top first), per the documented encoding
+    fn bytes(self, words: &[u32]) -> Vec<u8> {
+        match self {
+            // "msg_i -> 32-bit message word", blake3 words are little-endian
+            Func::Blake3One | Func::Blake3Two => words.iter().flat_map(|w| w.to_le_bytes()).collect(),
+            // "packing 4 consecutive bytes into single word, maintaining big endian byte order"
+            Func::Sha256One | Func::Sha256Two => words.iter().flat_map(|w| w.to_be_bytes()).collect(),
+            // 64-bit lanes read from a little-endian byte array, each given as (higher, lower) 32 bits
+            Func::Keccak => words
+                .chunks(2)
+                .flat_map(|p| ((((p[0] as u64) << 32) | p[1] as u64)).to_le_bytes())
+                .collect(),
+        }
+    }
+    /// the eight digest words (top first) denoted by a 32-byte digest
+    fn words_of_digest(self, d: &[u8]) -> Vec<u64> {
+        assert_eq!(d.len(), 32);
+        match self {
+            Func::Blake3One | Func::Blake3Two => {
+                d.chunks(4).map(|c| u32::from_le_bytes([c[0], c[1], c[2], c[3]]) as u64).collect()
+            }
+            Func::Sha256One | Func::Sha256Two => {
+                d.chunks(4).map(|c| u32::from_be_bytes([c[0], c[1], c[2], c[3]]) as u64).collect()
+            }
+            Func::Keccak => d
+                .chunks(8)
+                .flat_map(|c| {
+                    let lane = u64::from_le_bytes([c[0], c[1], c[2], c[3], c[4], c[5], c[6], c[7]]);
+                    [lane >> 32, lane & M32]
+                })
+                .collect(),
+        }
+    }
+    fn reference(self, words: &[u32]) -> Vec<u64> {
+        let bytes = self.bytes(words);
+        let d: Vec<u8> = match self {
+            Func::Blake3One | Func::Blake3Two => blake3::hash(&bytes).as_bytes().to_vec(),
+            Func::Sha256One | Func::Sha256Two => sha2::Sha256::digest(&bytes).to_vec(),
+            Func::Keccak => sha3::Keccak256::digest(&bytes).to_vec(),
+        };
+        self.words_of_digest(&d)
+    }
+    fn compile(self) -> Program {
+        let m = self.module();
+        let src = format!("use.std::crypto::hashes::{m}\nbegin\n    exec.{m}::{}\nend", self.proc());
+        assembler().compile(&src).unwrap_or_else(|e| panic!("family program must assemble: {src}: {e}"))
+    }
+}
+
+/// Sub-families of the 2^16 zero/all-ones word patterns of a 16-word input. The 16-bit mask m
+/// (bit i set <=> word i = 0xFFFFFFFF) is included
+///  * `Masks::Lanes` (256 masks): iff its bits come in equal pairs (words 2i and 2i+1 equal: every
+///    64-bit lane is 0 or all ones);
+///  * `Masks::Quick` (976 masks): iff (a) Lanes, or (b) its high byte equals its low byte (both
+///    32-byte halves equal), or (c) its high byte is 0, or (d) its low byte is 0 (one half zero, the
+///    other one ranging over all 2^8);
+///  * `Masks::LastLanes` (2^14 masks): iff bits 12, 13 are equal and bits 14, 15 are equal (the last
+///    two 64-bit lanes are 0 or all ones, the first 12 words range over all 2^12 patterns);
+///  * `Masks::All`: all 2^16.
+#[derive(Clone, Copy, PartialEq, Eq, Debug)]
+enum Masks {
+    Lanes,
+    Quick,
+    LastLanes,
+    All,
+}
+
+fn masks16(which: Masks) -> Vec<u32> {
+    (0u32..65536)
+        .filter(|&m| {
+            let pairs = (0..8).all(|i| (m >> (2 * i)) & 1 == (m >> (2 * i + 1)) & 1);
+            let (hi, lo) = (m >> 8, m & 0xFF);
+            match which {
+                Masks::Lanes => pairs,
+                Masks::Quick => pairs || hi == lo || hi == 0 || lo == 0,
+                Masks::LastLanes => (m >> 12) & 1 == (m >> 13) & 1 && (m >> 14) & 1 == (m >> 15) & 1,
+                Masks::All => true,
+            }
+        })
+        .collect()
+}
+
+/// keccak256::hash costs ~55 ms of CPU and ~90 MB of trace per run (blake3 2 ms, sha256 5-8 ms), so
+/// it gets the smaller sub-family in each tier
+fn masks_for(f: Func, tier: Tier) -> Masks {
+    match (f == Func::Keccak, tier) {
+        (true, Tier::Quick) => Masks::Lanes,
+        (true, Tier::Thorough) => Masks::LastLanes,
+        (false, Tier::Quick) => Masks::Quick,
+        (false, Tier::Thorough) => Masks::All,
+    }
+}
+
+/// the enumerated input set for an n-word procedure: (words top first, class)
+fn hash_inputs(n: usize, which: Masks) -> Vec<(Vec<u32>, &'static str)> {
+    let mut seen: BTreeSet<Vec<u32>> = BTreeSet::new();
+    let mut out: Vec<(Vec<u32>, &'static str)> = vec![];
+    let mut put = |w: Vec<u32>, tag: &'static str| {
+        if seen.insert(w.clone()) {
+            out.push((w, tag));
+        }
+    };
+    let masks: Vec<u32> = if n == 8 { (0..256).collect() } else { masks16(which) };
+    for m in masks {
+        put((0..n).map(|i| if (m >> i) & 1 == 1 { u32::MAX } else { 0 }).collect(), "word_pattern");
+    }
+    for k in 0..32 * n {
+        let mut w = vec![0u32; n];
+        w[k / 32] = 1 << (k % 32);
+        put(w.clone(), "single_bit");
+        put(w.iter().map(|x| !x).collect(), "all_but_one_bit");
+    }
+    // counting patterns: byte j = j (as big-endian and as little-endian words), word i = i + 1,
+    // byte j = 255 - j, word i = 0x01010101 * (i + 1)
+    let bytes: Vec<u8> = (0..4 * n).map(|j| j as u8).collect();
+    put(bytes.chunks(4).map(|c| u32::from_be_bytes([c[0], c[1], c[2], c[3]])).collect(), "counting");
+    put(bytes.chunks(4).map(|c| u32::from_le_bytes([c[0], c[1], c[2], c[3]])).collect(), "counting");
+    put((0..n).map(|i| i as u32 + 1).collect(), "counting");
+    put(bytes.chunks(4).map(|c| !u32::from_be_bytes([c[0], c[1], c[2], c[3]])).collect(), "counting");
+    put((0..n).map(|i| 0x0101_0101 * (i as u32 + 1)).collect(), "counting");
+    out
+}
+
+fn judge_stack(
+    ctx: &Ctx,
+    proc_path: &str,
+    class: &str,
+    what: &str,
+    case: &Value,
+    out: &Outcome,
+    want_top: &[u64],
+    n_sent: usize,
+    verbose: bool,
+) -> &'static str {
+    let mut want = want_top.to_vec();
+    want.extend_from_slice(&SENT[..n_sent]);
+    if verbose {
+        println!("expected: success, final stack (zeros below) = {}", hex(&want));
+        match out {
+            Outcome::Ok(s) => println!("observed: success, final stack = {}", hex(s)),
+            o => println!("observed: {}", o.brief()),
+        }
+    }
+    let fail = |kind: &str, extra: Option<(&str, Value)>, detail: String| {
+        let mut sig = json!({"kind": kind, "proc": proc_path, "input_class": class});
+        if let Some((k, v)) = extra {
+            sig.as_object_mut().unwrap().insert(k.into(), v);
+        }
+        ctx.fail(sig, format!("{proc_path} {what} {detail}"), case.clone());
+    };
+    match out {
+        Outcome::Panic(p) => {
+            fail("panic", Some(("panic", json!(guard::short_panic(p)))), guard::short_panic(p));
+            "panic"
+        }
+        Outcome::AsmErr(e) => panic!("family program must assemble: {e}"),
+        Outcome::Err(e) => {
+            fail("unexpected_failure", Some(("error", json!(err_variant(e)))), format!("failed with {e}"));
+            "unexpected_failure"
+        }
+        Outcome::Ok(s) => {
+            let s = strip_zeros(s);
+            let got: Vec<u64> = (0..want_top.len()).map(|i| s.get(i).copied().unwrap_or(0)).collect();
+            if s == &want[..] {
+                "ok_match"
+            } else if got != want_top {
+                fail("wrong_digest", None, format!("result={} expected={}", hex(&got), hex(want_top)));
+                "wrong_digest"
+            } else {
+                fail(
+                    "stack_disturbed",
+                    None,
+                    format!("below the result: {} expected {}", hex(s.get(want_top.len()..).unwrap_or(&[])), hex(&SENT[..n_sent])),
+                );
+                "stack_disturbed"
+            }
+        }
+    }
+}
+
+fn check_hash(ctx: &Ctx, f: Func, prog: &Program, words: &[u32], class: &str, verbose: bool) -> (&'static str, Option<Vec<u64>>) {
+    let mut st: Vec<u64> = words.iter().map(|&w| w as u64).collect();
+    st.extend_from_slice(&SENT);
+    let out = run_program(prog, &st, &[]);
+    let want = f.reference(words);
+    let case = json!({"kind": "hash", "func": f.path(), "words": words, "class": class});
+    let what = format!("input words(top first)={}", hex(&st[..words.len()]));
+    let c = judge_stack(ctx, &f.path(), class, &what, &case, &out, &want, SENT.len(), verbose);
+    let digest = match &out {
+        Outcome::Ok(s) => Some(s[..8].to_vec()),
+        _ => None,
+    };
+    (c, digest)
+}
+
+// ------------------------------------------------------------------------------------------------
+// native (RPO) helpers
+// ------------------------------------------------------------------------------------------------
+
+const P_MINUS_1: u64 = P - 1;
+const GUARD_WORD: [u64; 4] = [0xDEAD_0001, 0xDEAD_0002, 0xDEAD_0003, 0xDEAD_0004];
+
+/// `push.e0.e1.e2.e3.addr mem_storew dropw` for every word of `data` (word i at start + i), plus
+/// non-zero guard words right before and after the range (a read outside the range changes the hash)
+fn mem_prologue(start: u64, data: &[u64]) -> String {
+    let mut s = String::new();
+    let mut store = |addr: u64, w: &[u64]| {
+        s += &format!("    push.{}.{}.{}.{}.{} mem_storew dropw\n", w[0], w[1], w[2], w[3], addr);
+    };
+    let n_words = (data.len() / 4) as u64;
+    if start > 0 {
+        store(start - 1, &GUARD_WORD);
+    }
+    store(start + n_words, &GUARD_WORD);
+    store(start + n_words + 1, &GUARD_WORD);
+    for (i, w) in data.chunks(4).enumerate() {
+        store(start + i as u64, w);
+    }
+    s
+}
+
+fn rpo_digest_top_first(elements: &[u64]) -> Vec<u64> {
+    let d = Rpo256::hash_elements(&felts(elements));
+    let mut v: Vec<u64> = d.as_elements().iter().map(|e| e.as_int()).collect();
+    v.reverse();
+    v
+}
+
+fn data_pattern(name: &str, n: usize, seed: u64) -> Vec<u64> {
+    match name {
+        "counting" => (0..n as u64).map(|j| j + 1).collect(),
+        "max" => vec![P_MINUS_1; n],
+        "alternating" => (0..n).map(|j| if j % 2 == 0 { 0 } else { P_MINUS_1 }).collect(),
+        "seeded" => {
+            let mut g = mcx::space::SplitMix(seed ^ 0xC17);
+            (0..n).map(|_| g.next() % P).collect()
+        }
+        _ => panic!("unknown pattern {name}"),
+    }
+}
+
+const PATTERNS: [&str; 4] = ["counting", "max", "alternating", "seeded"];
+const STARTS: [u64; 3] = [0, 1000, (1 << 32) - 64];
+
+/// native::hash_memory: [start_addr, end_addr, ...] -> [H, ...], addresses are word addresses
+fn check_hash_memory(ctx: &Ctx, start: u64, data: &[u64], class: &str, verbose: bool) -> &'static str {
+    let n_words = (data.len() / 4) as u64;
+    let src = format!(
+        "use.std::crypto::hashes::native\nbegin\n{}    push.{} push.{}\n    exec.native::hash_memory\nend",
+        mem_prologue(start, data),
+        start + n_words,
+        start
+    );
+    let out = run_source(&assembler(), &src, &SENT, &[]);
+    let path = "std::crypto::hashes::native::hash_memory";
+    let case = json!({"kind": "hash_memory", "start": start, "data": data, "class": class});
+    let what = format!("start={start} words={n_words} data={}", hex(data));
+    if verbose {
+        println!("program:\n{src}");
+    }
+    if n_words == 0 {
+        // "Requires start_addr < end_addr": outside the contract; a failure is the documented
+        // enforcement, the hash of the empty sequence would also be an agreement with Rpo256
+        if verbose {
+            println!("expected: failure (empty range is rejected), or the RPO hash of the empty sequence; observed: {}", out.brief());
+        }
+        return match &out {
+            Outcome::Err(_) => "empty_range_rejected",
+            Outcome::Ok(s) if strip_zeros(s) == [rpo_digest_top_first(&[]), SENT.to_vec()].concat() => "empty_range_hash_of_empty",
+            _ => judge_stack(ctx, path, class, &what, &case, &out, &rpo_digest_top_first(&[]), SENT.len(), false),
+        };
+    }
+    judge_stack(ctx, path, class, &what, &case, &out, &rpo_digest_top_first(data), SENT.len(), verbose)
+}
+
+/// native::hash_memory_even: [C, B, A, start, end, ...] -> [C', B', A', end, end, ...]
+/// `state` is in hasher order (state[0..4] = capacity A, [4..8] = B, [8..12] = C); on the stack the
+/// state is reversed (state[11] on top)
+fn check_hash_memory_even(ctx: &Ctx, start: u64, data: &[u64], state: &[u64], class: &str, verbose: bool) -> &'static str {
+    assert!(data.len() % 8 == 0 && state.len() == 12);
+    let n_words = (data.len() / 4) as u64;
+    let end = start + n_words;
+    let src = format!(
+        "use.std::crypto::hashes::native\nbegin\n{}    exec.native::hash_memory_even\nend",
+        mem_prologue(start, data)
+    );
+    let mut st: Vec<u64> = state.iter().rev().cloned().collect();
+    st.push(start);
+    st.push(end);
+    st.extend_from_slice(&SENT);
+    let out = run_source(&assembler(), &src, &st, &[]);
+    // reference: the rate (state[4..12]) is overwritten by two consecutive words, then permuted
+    let mut s: [Felt; 12] = core::array::from_fn(|i| Felt::new(state[i]));
+    for pair in data.chunks(8) {
+        for (i, &e) in pair.iter().enumerate() {
+            s[4 + i] = Felt::new(e);
+        }
+        Rpo256::apply_permutation(&mut s);
+    }
+    let mut want: Vec<u64> = s.iter().rev().map(|e| e.as_int()).collect();
+    want.push(end);
+    want.push(end);
+    let case = json!({"kind": "hash_memory_even", "start": start, "data": data, "state": state, "class": class});
+    let what = format!("start={start} words={n_words} state={} data={}", hex(state), hex(data));
+    if verbose {
+        println!("program:\n{src}\nstack inputs (top first) = {}", hex(&st));
+    }
+    judge_stack(ctx, "std::crypto::hashes::native::hash_memory_even", class, &what, &case, &out, &want, SENT.len(), verbose)
+}
+
+/// native::state_to_digest: [C, B, A, ...] -> [B, ...]; with `permute` the program is
+/// `hperm exec.native::state_to_digest` and the reference is the digest part of the permuted state
+fn check_state_to_digest(ctx: &Ctx, state: &[u64], permute: bool, class: &str, verbose: bool) -> &'static str {
+    assert!(state.len() == 12);
+    let src = format!(
+        "use.std::crypto::hashes::native\nbegin\n    {}exec.native::state_to_digest\nend",
+        if permute { "hperm " } else { "" }
+    );
+    let mut st: Vec<u64> = state.iter().rev().cloned().collect();
+    st.extend_from_slice(&SENT);
+    let out = run_source(&assembler(), &src, &st, &[]);
+    let mut s: [Felt; 12] = core::array::from_fn(|i| Felt::new(state[i]));
+    if permute {
+        Rpo256::apply_permutation(&mut s);
+    }
+    let want: Vec<u64> = s[4..8].iter().rev().map(|e| e.as_int()).collect();
+    let case = json!({"kind": "state_to_digest", "state": state, "permute": permute, "class": class});
+    let what = format!("state={} permute={permute}", hex(state));
+    if verbose {
+        println!("program:\n{src}\nstack inputs (top first) = {}", hex(&st));
+    }
+    judge_stack(ctx, "std::crypto::hashes::native::state_to_digest", class, &what, &case, &out, &want, SENT.len(), verbose)
+}
+
+// ------------------------------------------------------------------------------------------------
+// sha256::hash_memory and the keccak bit-interleaving helpers
+// ------------------------------------------------------------------------------------------------
+
+/// sha256::hash_memory: [addr, len, ...] -> [dig0..dig7, ...]; the message is `len` bytes packed
+/// big-endian, 4 bytes per element and 4 elements per memory word, starting at word address `addr`;
+/// "the padding space after the message must be all zeros". The element order inside a memory word
+/// is not in the doc comment; it is the one stdlib/tests/crypto/sha256.rs uses (a word is stored with
+/// `mem_storew` while the first message element is on top, i.e. word = [m3, m2, m1, m0]).
+fn check_sha256_memory(ctx: &Ctx, addr: u64, msg: &[u8], class: &str, verbose: bool) -> &'static str {
+    let mut padded = msg.to_vec();
+    while padded.len() % 16 != 0 {
+        padded.push(0);
+    }
+    let elems: Vec<u64> = padded.chunks(4).map(|c| u32::from_be_bytes([c[0], c[1], c[2], c[3]]) as u64).collect();
+    let mut src = String::from("use.std::crypto::hashes::sha256\nbegin\n");
+    for (i, w) in elems.chunks(4).enumerate() {
+        src += &format!("    push.{}.{}.{}.{}.{} mem_storew dropw\n", w[3], w[2], w[1], w[0], addr + i as u64);
+    }
+    src += &format!("    push.{} push.{}\n    exec.sha256::hash_memory\nend", msg.len(), addr);
+    let out = run_source(&assembler(), &src, &SENT, &[]);
+    let want = Func::Sha256One.words_of_digest(&sha2::Sha256::digest(msg));
+    let case = json!({"kind": "sha256_memory", "addr": addr, "msg": msg, "class": class});
+    let what = format!("addr={addr} len={} msg={:02x?}", msg.len(), msg);
+    if verbose {
+        println!("program:\n{src}");
+    }
+    judge_stack(ctx, "std::crypto::hashes::sha256::hash_memory", class, &what, &case, &out, &want, SENT.len(), verbose)
+}
+
+/// section 2.1 of the Keccak implementation overview: a 64-bit lane is stored as two 32-bit words,
+/// one with the bits at even positions and one with the bits at odd positions
+fn interleave(lane: u64) -> (u64, u64) {
+    let (mut even, mut odd) = (0u64, 0u64);
+    for i in 0..32 {
+        even |= ((lane >> (2 * i)) & 1) << i;
+        odd |= ((lane >> (2 * i + 1)) & 1) << i;
+    }
+    (even, odd)
+}
+
+/// to_bit_interleaved: [hi, lo, ...] -> [even, odd, ...]; from_bit_interleaved: [even, odd, ...] -> [hi, lo, ...]
+fn check_interleave(ctx: &Ctx, progs: &(Program, Program), lane: u64, class: &str, verbose: bool) -> &'static str {
+    let (even, odd) = interleave(lane);
+    let (hi, lo) = (lane >> 32, lane & M32);
+    let mut worst = "ok_match";
+    for (name, prog, input, want) in [
+        ("to_bit_interleaved", &progs.0, [hi, lo], [even, odd]),
+        ("from_bit_interleaved", &progs.1, [even, odd], [hi, lo]),
+    ] {
+        let mut st = input.to_vec();
+        st.extend_from_slice(&SENT);
+        let out = run_program(prog, &st, &[]);
+        let path = format!("std::crypto::hashes::keccak256::{name}");
+        let case = json!({"kind": "interleave", "lane": lane, "class": class});
+        if verbose {
+            println!("{name}: stack inputs (top first) = {}", hex(&st));
+        }
+        let c = judge_stack(ctx, &path, class, &format!("lane={lane:#018x} input={}", hex(&input)), &case, &out, &want, SENT.len(), verbose);
+        if c != "ok_match" {
+            worst = c;
+        }
+    }
+    worst
+}
+
+fn compile_interleave() -> (Program, Program) {
+    let c = |name: &str| {
+        let src = format!("use.std::crypto::hashes::keccak256\nbegin\n    exec.keccak256::{name}\nend");
+        assembler().compile(&src).unwrap_or_else(|e| panic!("family program must assemble: {src}: {e}"))
+    };
+    (c("to_bit_interleaved"), c("from_bit_interleaved"))
+}
+
+fn lane_values() -> Vec<(u64, &'static str)> {
+    let mut seen = BTreeSet::new();
+    let mut out = vec![];
+    let mut put = |v: u64, tag: &'static str| {
+        if seen.insert(v) {
+            out.push((v, tag));
+        }
+    };
+    for hi in [0u64, M32] {
+        for lo in [0u64, M32] {
+            put((hi << 32) | lo, "word_pattern");
+        }
+    }
+    for i in 0..64 {
+        put(1u64 << i, "single_bit");
+        put(!(1u64 << i), "all_but_one_bit");
+    }
+    for v in [0x5555_5555_5555_5555u64, 0xAAAA_AAAA_AAAA_AAAA, 0x0123_4567_89AB_CDEF, 0x0706_0504_0302_0100, 0xFFFF_0000_FFFF_0000] {
+        put(v, "counting");
+    }
+    out
+}
+
+// ------------------------------------------------------------------------------------------------
+// driver
+// ------------------------------------------------------------------------------------------------
+
+fn exported(module_path: &str) -> BTreeSet<String> {
+    use assembly::Library;
+    let lib = stdlib::StdLibrary::default();
+    let m = lib
+        .modules()
+        .find(|m| m.path.to_string() == module_path)
+        .unwrap_or_else(|| panic!("module {module_path} not in StdLibrary"));
+    let mut s: BTreeSet<String> =
+        m.ast.procs().iter().filter(|p| p.is_export).map(|p| p.name.to_string()).collect();
+    s.extend(m.ast.reexported_procs().iter().map(|p| p.name().to_string()));
+    s
+}
+
+fn set(names: &[&str]) -> BTreeSet<String> {
+    names.iter().map(|s| s.to_string()).collect()
+}
+
+fn sha_memory_messages(tier: Tier) -> Vec<(Vec<u8>, &'static str)> {
+    // every length 0..=max with the counting pattern byte j = j + 1; plus all-0xFF messages at the
+    // padding boundaries
+    let max = tier.pick(130usize, 300usize);
+    let mut v: Vec<(Vec<u8>, &'static str)> = (0..=max).map(|n| ((0..n).map(|j| (j + 1) as u8).collect(), "counting")).collect();
+    for n in [1usize, 3, 4, 55, 56, 63, 64, 65, 119, 120, 128] {
+        v.push((vec![0xFF; n], "word_pattern"));
+    }
+    v
+}
+
+pub fn run(ctx: &Ctx, replay: Option<&Value>) -> i32 {
+    tune_allocator();
+    if let Some(case) = replay {
+        let class = case["class"].as_str().unwrap_or("replay").to_string();
+        let verdict = match case["kind"].as_str().expect("case.kind") {
+            "hash" => {
+                let f = Func::from_path(case["func"].as_str().expect("case.func"));
+                let words: Vec<u32> = u64s(&case["words"]).into_iter().map(|x| x as u32).collect();
+                println!("program: use.std::crypto::hashes::{m} begin exec.{m}::{} end", f.proc(), m = f.module());
+                println!("input bytes = {:02x?}", f.bytes(&words));
+                check_hash(ctx, f, &f.compile(), &words, &class, true).0
+            }
+            "hash_memory" => check_hash_memory(ctx, case["start"].as_u64().unwrap(), &u64s(&case["data"]), &class, true),
+            "hash_memory_even" => check_hash_memory_even(
+                ctx,
+                case["start"].as_u64().unwrap(),
+                &u64s(&case["data"]),
+                &u64s(&case["state"]),
+                &class,
+                true,
+            ),
+            "state_to_digest" => check_state_to_digest(ctx, &u64s(&case["state"]), case["permute"].as_bool().unwrap(), &class, true),
+            "sha256_memory" => {
+                let msg: Vec<u8> = u64s(&case["msg"]).into_iter().map(|x| x as u8).collect();
+                check_sha256_memory(ctx, case["addr"].as_u64().unwrap(), &msg, &class, true)
+            }
+            "interleave" => check_interleave(ctx, &compile_interleave(), case["lane"].as_u64().unwrap(), &class, true),
+            k => panic!("unknown case kind {k}"),
+        };
+        println!("verdict for this case: {verdict}");
+        return ctx.finish("exploration", json!({}), &[]);
+    }
+
+    // every exported procedure of the four modules is covered (computed, not assumed)
+    let h = "std::crypto::hashes::";
+    assert_eq!(exported(&format!("{h}blake3")), set(&["hash_1to1", "hash_2to1"]), "exports of blake3 changed");
+    assert_eq!(exported(&format!("{h}sha256")), set(&["hash_1to1", "hash_2to1", "hash_memory"]), "exports of sha256 changed");
+    assert_eq!(
+        exported(&format!("{h}keccak256")),
+        set(&["hash", "to_bit_interleaved", "from_bit_interleaved"]),
+        "exports of keccak256 changed"
+    );
+    assert_eq!(
+        exported(&format!("{h}native")),
+        set(&["state_to_digest", "hash_memory_even", "hash_memory"]),
+        "exports of native changed"
+    );
+
+    let pool = worker_pool(ctx.tier);
+    let mut per_proc = serde_json::Map::new();
+    let mut evaluations = 0u64;
+    let mut nontrivial = 0u64;
+    let mut hist: BTreeMap<String, u64> = BTreeMap::new();
+    let bump = |hist: &mut BTreeMap<String, u64>, c: &str| *hist.entry(c.to_string()).or_insert(0) += 1;
+
+    // ---- the five byte-oriented hash procedures
+    for f in FUNCS {
+        let t0 = std::time::Instant::now();
+        let prog = f.compile();
+        let inputs = hash_inputs(f.n_words(), masks_for(f, ctx.tier));
+        // determinism of the machinery
+        for (w, _) in inputs.iter().take(8) {
+            let st: Vec<u64> = w.iter().map(|&x| x as u64).chain(SENT.iter().cloned()).collect();
+            let (a, b) = (run_program(&prog, &st, &[]), run_program(&prog, &st, &[]));
+            assert!(a == b, "non-deterministic observation for {}", f.path());
+        }
+        let res: Vec<(&'static str, Option<Vec<u64>>)> =
+            pool.install(|| inputs.par_iter().map(|(w, c)| check_hash(ctx, f, &prog, w, c, false)).collect());
+        let mut classes: BTreeMap<&str, u64> = BTreeMap::new();
+        let mut by_input_class: BTreeMap<&str, u64> = BTreeMap::new();
+        let mut digests: BTreeSet<&Vec<u64>> = BTreeSet::new();
+        for ((w, tag), (c, d)) in inputs.iter().zip(res.iter()) {
+            *classes.entry(c).or_insert(0) += 1;
+            *by_input_class.entry(tag).or_insert(0) += 1;
+            bump(&mut hist, c);
+            if let Some(d) = d {
+                digests.insert(d);
+            }
+            if w.iter().any(|&x| x != 0) {
+                nontrivial += 1;
+            }
+        }
+        evaluations += inputs.len() as u64;
+        let wall = t0.elapsed().as_secs_f64();
+        per_proc.insert(
+            f.path(),
+            json!({
+                "inputs": inputs.len(),
+                "by_input_class": by_input_class,
+                "outcome_classes": classes,
+                "distinct_observed_digests": digests.len(),
+                "wall_s": (wall * 1000.0).round() / 1000.0,
+            }),
+        );
+        let (w, tag) = &inputs[inputs.len() / 2];
+        ctx.sample(json!({
+            "proc": f.path(),
+            "input_class": tag,
+            "input_words_top_first": hex(&w.iter().map(|&x| x as u64).collect::<Vec<_>>()),
+            "reference_digest_words_top_first": hex(&f.reference(w)),
+        }));
+    }
+
+    // ---- native::hash_memory: every length 0..=17 words x 3 start addresses x 4 data patterns
+    let mut hm_cases: Vec<(u64, Vec<u64>, &'static str)> = vec![];
+    for &start in &STARTS {
+        for len in 0..=17usize {
+            for pat in PATTERNS {
+                if len == 0 && pat != "counting" {
+                    continue; // the empty sequence has one pattern
+                }
+                hm_cases.push((start, data_pattern(pat, 4 * len, ctx.seed), pat));
+            }
+        }
+    }
+    let t0 = std::time::Instant::now();
+    let res: Vec<&'static str> =
+        pool.install(|| hm_cases.par_iter().map(|(s, d, p)| check_hash_memory(ctx, *s, d, p, false)).collect());
+    let mut classes: BTreeMap<&str, u64> = BTreeMap::new();
+    for (c, (_, d, _)) in res.iter().zip(hm_cases.iter()) {
+        *classes.entry(c).or_insert(0) += 1;
+        bump(&mut hist, c);
+        if !d.is_empty() {
+            nontrivial += 1;
+        }
+    }
+    evaluations += hm_cases.len() as u64;
+    per_proc.insert(
+        format!("{h}native::hash_memory"),
+        json!({"cases": hm_cases.len(), "lengths_in_words": "0..=17 (all)", "start_addresses": STARTS, "data_patterns": PATTERNS,
+               "outcome_classes": classes, "wall_s": (t0.elapsed().as_secs_f64() * 1000.0).round() / 1000.0}),
+    );
+    ctx.sample(json!({"proc": "std::crypto::hashes::native::hash_memory", "start": 1000, "data": data_pattern("counting", 12, 0),
+                      "reference_top_first": hex(&rpo_digest_top_first(&data_pattern("counting", 12, 0)))}));
+
+    // ---- native::hash_memory_even: every even length 0..=16 words x 3 starts x 4 patterns x 2 initial states
+    let states: [(&str, Vec<u64>); 2] = [("zero_state", vec![0; 12]), ("distinct_state", (101..113).collect())];
+    let mut hme_cases: Vec<(u64, Vec<u64>, Vec<u64>, &'static str)> = vec![];
+    for &start in &STARTS {
+        for pairs in 0..=8usize {
+            for pat in PATTERNS {
+                if pairs == 0 && pat != "counting" {
+                    continue;
+                }
+                for (_, st) in &states {
+                    hme_cases.push((start, data_pattern(pat, 8 * pairs, ctx.seed), st.clone(), pat));
+                }
+            }
+        }
+    }
+    let t0 = std::time::Instant::now();
+    let res: Vec<&'static str> =
+        pool.install(|| hme_cases.par_iter().map(|(s, d, st, p)| check_hash_memory_even(ctx, *s, d, st, p, false)).collect());
+    let mut classes: BTreeMap<&str, u64> = BTreeMap::new();
+    for c in &res {
+        *classes.entry(c).or_insert(0) += 1;
+        bump(&mut hist, c);
+    }
+    evaluations += hme_cases.len() as u64;
+    nontrivial += hme_cases.iter().filter(|c| !c.1.is_empty()).count() as u64;
+    per_proc.insert(
+        format!("{h}native::hash_memory_even"),
+        json!({"cases": hme_cases.len(), "lengths_in_words": "0,2,..,16 (all)", "start_addresses": STARTS, "data_patterns": PATTERNS,
+               "initial_states": states.iter().map(|s| s.0).collect::<Vec<_>>(),
+               "outcome_classes": classes, "wall_s": (t0.elapsed().as_secs_f64() * 1000.0).round() / 1000.0}),
+    );
+
+    // ---- native::state_to_digest: 4 states x {as is, after hperm}
+    let mut classes: BTreeMap<&str, u64> = BTreeMap::new();
+    let mut n_std = 0u64;
+    for pat in PATTERNS {
+        for permute in [false, true] {
+            let c = check_state_to_digest(ctx, &data_pattern(pat, 12, ctx.seed), permute, pat, false);
+            *classes.entry(c).or_insert(0) += 1;
+            bump(&mut hist, c);
+            n_std += 1;
+        }
+    }
+    evaluations += n_std;
+    nontrivial += n_std;
+    per_proc.insert(format!("{h}native::state_to_digest"), json!({"cases": n_std, "outcome_classes": classes}));
+
+    // ---- sha256::hash_memory: every message length 0..=max (counting bytes) at 2 addresses
+    let msgs = sha_memory_messages(ctx.tier);
+    let sha_cases: Vec<(u64, &Vec<u8>, &'static str)> =
+        [100u64, 1 << 20].iter().flat_map(|&a| msgs.iter().map(move |(m, c)| (a, m, *c))).collect();
+    let t0 = std::time::Instant::now();
+    let res: Vec<&'static str> =
+        pool.install(|| sha_cases.par_iter().map(|(a, m, c)| check_sha256_memory(ctx, *a, m, c, false)).collect());
+    let mut classes: BTreeMap<&str, u64> = BTreeMap::new();
+    for c in &res {
+        *classes.entry(c).or_insert(0) += 1;
+        bump(&mut hist, c);
+    }
+    evaluations += sha_cases.len() as u64;
+    nontrivial += sha_cases.iter().filter(|c| !c.1.is_empty()).count() as u64;
+    per_proc.insert(
+        format!("{h}sha256::hash_memory"),
+        json!({"cases": sha_cases.len(), "message_lengths_in_bytes": format!("0..={} (all, counting bytes) + all-0xFF at 11 padding-boundary lengths", ctx.tier.pick(130, 300)),
+               "addresses": [100u64, 1 << 20], "outcome_classes": classes, "wall_s": (t0.elapsed().as_secs_f64() * 1000.0).round() / 1000.0}),
+    );
+
+    // ---- keccak256 bit (de)interleaving helpers
+    let lanes = lane_values();
+    let progs = compile_interleave();
+    let res: Vec<&'static str> =
+        pool.install(|| lanes.par_iter().map(|(v, c)| check_interleave(ctx, &progs, *v, c, false)).collect());
+    let mut classes: BTreeMap<&str, u64> = BTreeMap::new();
+    for c in &res {
+        *classes.entry(c).or_insert(0) += 1;
+        bump(&mut hist, c);
+    }
+    evaluations += 2 * lanes.len() as u64;
+    nontrivial += 2 * lanes.iter().filter(|l| l.0 != 0).count() as u64;
+    per_proc.insert(format!("{h}keccak256::to/from_bit_interleaved"), json!({"lanes": lanes.len(), "outcome_classes": classes}));
+
+    let cov = json!({
+        "evaluations": evaluations,
+        "distinct_nontrivial": nontrivial,
+        "rule": "case = (procedure, input); inputs of a procedure are de-duplicated, so all cases are distinct; non-trivial = the input (message words / memory elements / state) is not empty and not all-zero",
+        "input_sets": {
+            "8_word_inputs": "all 2^8 words-in-{0,0xFFFFFFFF} patterns, 256 single-bit, 256 all-ones-but-one-bit, 5 counting patterns (de-duplicated)",
+            "16_word_inputs": format!(
+                "{} of the 2^16 words-in-{{0,0xFFFFFFFF}} patterns for blake3::hash_2to1 and sha256::hash_2to1 (sub-family {:?}), {} for keccak256::hash (sub-family {:?}); 512 single-bit, 512 all-ones-but-one-bit, 5 counting patterns (de-duplicated). Sub-families: Lanes = words 2i and 2i+1 equal; Quick = Lanes, or both halves equal, or one half zero; LastLanes = words 12,13 equal and words 14,15 equal; All = all 2^16",
+                masks16(masks_for(Func::Sha256Two, ctx.tier)).len(), masks_for(Func::Sha256Two, ctx.tier),
+                masks16(masks_for(Func::Keccak, ctx.tier)).len(), masks_for(Func::Keccak, ctx.tier)),
+        },
+        "per_procedure": per_proc,
+        "outcome_classes": hist,
+        "worker_threads": pool.current_num_threads(),
+        "exhaustive": true,
+        "bounds": "the stated finite input sets are enumerated completely for every exported procedure of blake3, sha256, keccak256 and native; agreement on all 2^256 / 2^512 inputs is NOT decided",
+    });
+    ctx.finish(
+        "exploration",
+        cov,
+        &[
+            "reference digests come from the crates blake3, sha2, sha3 (Keccak256) and, for the native helpers, from Rpo256::hash_elements / apply_permutation of miden-crypto (the VM's own hasher, as the property states)",
+            "word encodings as documented in the procedures' doc comments: blake3 little-endian words, sha256 big-endian words, keccak (hi, lo) halves of little-endian 64-bit lanes",
+            "native::hash_memory with an empty range is outside its documented precondition: a failure or the hash of the empty sequence are both accepted",
+            "only the stated structured inputs are covered; VERIF_SEED only chooses the element values of the 'seeded' memory pattern",
+        ],
+    )
 }
